@@ -41,12 +41,12 @@ def main():
             {"name": "lean-proofs", "path": "lean/", "serves_properties": sorted(checks),
              "kind_free_text": "Lean 4 models (Model/, Gen/) and theorems (Props/); kernel-checked, axioms audited"},
             {"name": "translator", "path": "harness/translate.py", "serves_properties": sorted(checks),
-             "kind_free_text": "Python ast -> Lean (Gen/*.lean), regenerated from /repo on every run"},
+             "kind_free_text": "Python ast -> Lean (Gen/*.lean), regenerated from /repo on every run: T1 per-cell kernels (KLang), T2 structural facts, T3 statement-by-statement translation of the numba loop nests into the imperative language Core/ILang.lean (harness/facts_il.py -> Gen/IL.lean, 44 programs), each validated against the numba-compiled function by harness/il_corr.py"},
             {"name": "correspondence", "path": "harness/", "serves_properties": sorted(checks),
              "kind_free_text": "differential run of the real code against the compiled Lean driver + property oracles for the failing-input search"},
         ],
         "checks": [],
-        "notes": "Every check: regenerate Gen/*.lean from /repo, lake build the property's theorems, audit axioms, run the correspondence and the oracle search. See DESIGN.md.",
+        "notes": "Every check: regenerate Gen/*.lean from /repo (T1 kernels, T2 facts, T3 programs), lake build the property's theorems (incl. the refinement theorems 'generated program = hand model'), audit axioms, run the correspondence (model vs code, generated program vs numba) and the oracle search. See DESIGN.md sections 3 and 18.",
         "not_applicable": [{"property_id": k, "reason": v} for k, v in sorted(na.items())],
     }
     for pid in props:
